@@ -73,6 +73,9 @@ def finding_matches(fd, prop, record):
     return True
 
 
+_replay_memo = {}
+
+
 def try_replay(prop, ob, sections, sd, tier):
     """Find a concrete failing input for a failed obligation: first among the witness failures of this run
     (same tags), then by an extended search in the hinted family."""
@@ -85,12 +88,16 @@ def try_replay(prop, ob, sections, sd, tier):
                 if not fams or fl.get("family") in fams:
                     return fl
     if fams:
-        argv = [C.PY_REPO, "-m", "replay.run", "--prop", prop, "--families", ",".join(fams), "--n", "1500", "--seed", str(sd), "--tier", tier,
-                "--stop-at-first"]
-        doc = C.run_section("witness", argv, 900, C.repo_env())
-        for b in doc.get("bounded", []):
-            for fl in b.get("failures", []):
-                return fl
+        key = tuple(sorted(fams))
+        if key not in _replay_memo:          # one extended search per set of families, however many obligations failed
+            argv = [C.PY_REPO, "-m", "replay.run", "--prop", prop, "--families", ",".join(fams), "--n", str(1200 * len(fams)), "--seed", str(sd + 7), "--tier", tier]
+            doc = C.run_section("witness", argv, 900, C.repo_env())
+            found = None
+            for b in doc.get("bounded", []):
+                for fl in b.get("failures", []):
+                    found = found or fl
+            _replay_memo[key] = found
+        return _replay_memo[key]
     return None
 
 
